@@ -77,9 +77,9 @@ def offsetJac (_x _off : α) : List α := [1.0]
 /-- `offset_model_derivative` -/
 def offsetDeriv (_x _off : α) : α := 0.0
 
-/-- `twlc_distance` (`g` is continuous across `f = Fc`) -/
+/-- `twlc_distance` (`g` is continuous across `f = Fc`; `g = np.zeros` stays 0 when neither mask holds, i.e. NaN) -/
 def twlcDistance (f Lp Lc St C g0 g1 Fc kT : α) : α :=
-  let g := if lt f Fc then g0 + g1 * Fc else g0 + g1 * f
+  let g := if lt f Fc then g0 + g1 * Fc else if le Fc f then g0 + g1 * f else 0.0
   Lc * (1.0 - 1.0 / 2.0 * sqrt (kT / (f * Lp)) + (C / ((-g) * g + St * C)) * f)
 
 /-- `twlc_distance_jac` rows `Lp, Lc, St, C, g0, g1, Fc, kT` -/
@@ -755,15 +755,18 @@ def parseTreeF : Nat → List String → Option (M × List String)
 
 def parseTree (toks : List String) : Option (M × List String) := parseTreeF (toks.length + 1) toks
 
+def flt? (s : String) : Option Float := if s == "nan" then some (0.0 / 0.0) else float? s
+def fltList? : String → Option (List Float) := listOf? flt?
+
 /-- `s:<name>` or `c:<float bits>` -/
 def parseTr (tok : String) : Option (Tr Float) :=
   if tok.startsWith "s:" then some ⟨tok, .inl (tok.drop 2).toString⟩
-  else if tok.startsWith "c:" then (float? (tok.drop 2).toString).map fun v => ⟨tok, .inr v⟩
+  else if tok.startsWith "c:" then (flt? (tok.drop 2).toString).map fun v => ⟨tok, .inr v⟩
   else none
 
 def parseData : List String → Option (DataSet Float × List String)
   | xs :: n :: rest => do
-    let xs ← floatList? xs
+    let xs ← fltList? xs
     let n ← nat? n
     if rest.length < n then none
     let trs ← (rest.take n).mapM parseTr
@@ -786,6 +789,32 @@ def parseModelData (toks : List String) : Option ((M × List (DataSet Float)) ×
     some ((m, ds), rest)
   | [] => none
 
+/-- `k n1 v1 … nk vk rest` -/
+def parseAssoc : List String → Option (List (String × Float) × List String)
+  | k :: rest => do
+    let k ← nat? k
+    if rest.length < 2 * k then none
+    let rec go : Nat → List String → Option (List (String × Float))
+      | 0, _ => some []
+      | n + 1, name :: v :: more => do
+        let v ← flt? v
+        let tl ← go n more
+        some ((name, v) :: tl)
+      | _, _ => none
+    let l ← go k rest
+    some (l, rest.drop (2 * k))
+  | [] => none
+
+def lookupAll (assoc : List (String × Float)) (names : List String) : Option (List Float) :=
+  names.mapM fun n => (assoc.find? (·.1 == n)).map (·.2)
+
+/-- the `ValueError` guard of the model functions (`Lp <= 0 or Lc <= 0 or …`) -/
+def positiveGuard (k : Kind) (p : List Float) : Bool :=
+  match k, p with
+  | .offset, _ => true
+  | .twlcD, [Lp, Lc, St, _, _, _, _, kT] => !(Lp <= 0.0 || Lc <= 0.0 || St <= 0.0 || kT <= 0.0)
+  | _, p => p.all fun v => !(v <= 0.0)
+
 def branchOf (k : Kind) (x : Float) (p : List Float) : String :=
   match baseCoef k x p with
   | none => "-"
@@ -794,43 +823,49 @@ def branchOf (k : Kind) (x : Float) (p : List Float) : String :=
 
 def handle : List String → Option String
   | ["c13.val", k, x, p] => do
-    let k ← Kind.ofString? k; let x ← float? x; let p ← floatList? p
+    let k ← Kind.ofString? k; let x ← flt? x; let p ← fltList? p
     let v ← baseVal k x p
-    some (showFloat v)
+    if !positiveGuard k p then some "ValueError" else some (showFloat v)
   | ["c13.jac", k, x, p] => do
-    let k ← Kind.ofString? k; let x ← float? x; let p ← floatList? p
+    let k ← Kind.ofString? k; let x ← flt? x; let p ← fltList? p
     let j ← baseJac k x p
     some (branchOf k x p ++ " " ++ showFloatList j)
   | ["c13.der", k, x, p] => do
-    let k ← Kind.ofString? k; let x ← float? x; let p ← floatList? p
+    let k ← Kind.ofString? k; let x ← flt? x; let p ← fltList? p
     let d ← baseDer k x p
     some (branchOf k x p ++ " " ++ showFloat d)
   | ["c13.cubic", a, b, c, k] => do
-    let a ← float? a; let b ← float? b; let c ← float? c; let k ← nat? k
+    let a ← flt? a; let b ← flt? b; let c ← flt? c; let k ← nat? k
     if k > 2 then none
     let (ya, yb, yc) := calcCubicRootDerivs a b c k
     let y := calcCubicRoot a b c k
     let (ia, ib, ic) := implicitDerivs a b y
     some ((if RealLike.lt (0.0 : Float) (cubDet a b c) then "C" else "T") ++ (if regularised a b c then "R" else "N")
       ++ " " ++ showFloatList [y, ya, yb, yc, ia, ib, ic])
-  | "c13.tree" :: what :: x :: p :: sols :: tree => do
-    let x ← float? x; let p ← floatList? p; let sols ← floatList? sols
-    let (m, rest) ← parseTree tree
+  | "c13.tree" :: what :: x :: sols :: rest => do
+    let x ← flt? x; let sols ← fltList? sols
+    let (assoc, rest) ← parseAssoc rest
+    let (m, rest) ← parseTree rest
     if !rest.isEmpty then none
-    if m.params.length != p.length || m.countInv != sols.length then none
+    if m.countInv != sols.length then none
+    let p ← lookupAll assoc m.params
     match what with
     | "names" => some (" ".intercalate m.params)
     | "jac" => (m.jac x p sols).map showFloatList
     | "der" => (m.der x p sols).map showFloat
     | _ => none
-  | "c13.fit" :: variant :: g :: n :: rest => do
+  | "c13.fit" :: variant :: rest => do
     let fixed ← (if variant == "code" then some false else if variant == "fixed" then some true else none)
-    let g ← floatList? g
-    let n ← nat? n
-    let (models, rest) ← parseMany parseModelData n rest
-    if !rest.isEmpty then none
-    let (names, rows) ← fitJacobian fixed models g
-    some (" ".intercalate names ++ " | " ++ showListList showFloat rows)
+    let (assoc, rest) ← parseAssoc rest
+    match rest with
+    | n :: rest => do
+      let n ← nat? n
+      let (models, rest) ← parseMany parseModelData n rest
+      if !rest.isEmpty then none
+      let g ← lookupAll assoc (globalNames models)
+      let (names, rows) ← fitJacobian fixed models g
+      some (" ".intercalate names ++ " | " ++ showListList showFloat rows)
+    | [] => none
   | _ => none
 
 end Verif.C13
